@@ -3,7 +3,7 @@
    name, raw variables, root value, the outcome every resolver invocation produced
    (the oracle), and what the implementation returned / recorded. *)
 From Coq Require Import List ZArith NArith String Bool.
-From GQL Require Export Exec.Syntax Exec.Coerce Exec.Exec Exec.Request.
+From GQL Require Export Exec.Syntax Exec.Coerce Exec.Exec Exec.Request Exec.PlanCollect.
 Import ListNotations.
 Open Scope string_scope.
 Open Scope list_scope.
@@ -20,7 +20,8 @@ Record xcase := {
   x_calls : list call;
   x_tcalls : list (path * rv);
   x_varsseen : option (list (name * jv));      (* Info.VariableValues as seen by the resolvers (nil entries dropped) *)
-  x_log : list path }.                          (* resolver starts and thunk forcings, in the order they happened *)
+  x_log : list path;
+  x_plan : option ptree }.                      (* structure of the prepared plan (PlanQuery entry point, verif hook) *)                          (* resolver starts and thunk forcings, in the order they happened *)
 
 Fixpoint plookup {A} (p : path) (l : list (path * A)) : option A :=
   match l with
@@ -149,6 +150,25 @@ Definition is_mutation (D : document) (op : option name) : bool :=
 
 Definition FUEL : nat := 60.
 
+(* the prepared plan has the structure the plan-time collection model predicts *)
+Definition plan_ok (c : xcase) : bool :=
+  match x_plan c with
+  | None => true
+  | Some t =>
+    match get_operation (x_doc c) (x_op c) with
+    | Some op =>
+      match root_type (x_schema c) op with
+      | Some rt =>
+        match plan_tree FUEL (x_schema c) (x_doc c) rt [o_sel op] with
+        | Some m => ptree_eqb m t
+        | None => false
+        end
+      | None => true
+      end
+    | None => true
+    end
+  end.
+
 Local Open Scope N_scope.
 
 (* codes: 0 ok; 1 implementation differs from the model on something the property leaves open;
@@ -157,6 +177,7 @@ Local Open Scope N_scope.
 Definition check (c : xcase) : N :=
   let or := mk_oracle (x_oracle c) in
   let tor := mk_toracle (x_toracle c) in
+  if negb (plan_ok c) then 1 else
   match request FUEL (x_schema c) (x_doc c) (x_op c) (x_inputs c) (x_root c) or tor with
   | RFuel => 1
   | RReject => if x_rejected c then 0 else 2
